@@ -658,3 +658,48 @@ def _modn_equals(ex, args, ins, where):
     if is_sym(a) or is_sym(b):
         return simp(to_bv(a, 256) == to_bv(b, 256))
     return a == b
+
+
+# ------------------------------------------------------------------ private keys: opaque, remembering their scalar
+class OpaquePriv(Opaque):
+    def __init__(self, scalar):
+        Opaque.__init__(self, 'secp256k1.PrivateKey')
+        self.scalar = scalar        # int (reduced mod n) or a 256-bit term
+
+
+@intrinsic('github.com/decred/dcrd/dcrec/secp256k1/v4.PrivKeyFromBytes')
+def _privkey_from_bytes(ex, args, ins, where):
+    els = ex.slice_elems(args[0])[:32]
+    if all(not is_sym(b) for b in els):
+        v = int.from_bytes(bytes(els), 'big') % SECP_N if els else 0
+    else:
+        v = bytes_to_bv(els)
+        if v.size() < 256:
+            v = z3.ZeroExt(256 - v.size(), v)
+        v = simp(z3.If(z3.UGE(v, z3.BitVecVal(SECP_N, 256)), v - z3.BitVecVal(SECP_N, 256), v))
+    ex.cut_notes.add('stub: secp256k1 private keys are opaque objects remembering their scalar (reduced mod n)')
+    return Ptr(ex.new_obj(OpaquePriv(v)), ())
+
+
+@intrinsic('(*github.com/decred/dcrd/dcrec/secp256k1/v4.PrivateKey).Serialize',
+           '(github.com/decred/dcrd/dcrec/secp256k1/v4.PrivateKey).Serialize')
+def _privkey_serialize(ex, args, ins, where):
+    o = args[0] if isinstance(args[0], Opaque) else ex.heap[args[0].obj]
+    if not isinstance(o, OpaquePriv):
+        raise Unsupported('PrivateKey.Serialize on a key not built by PrivKeyFromBytes')
+    return ex.mkslice(_u256_to_bytes(o.scalar))
+
+
+@intrinsic('(*github.com/decred/dcrd/dcrec/secp256k1/v4.PrivateKey).PubKey')
+def _privkey_pubkey(ex, args, ins, where):
+    o = args[0] if isinstance(args[0], Opaque) else ex.heap[args[0].obj]
+    if isinstance(o, OpaquePriv) and not is_sym(o.scalar) and o.scalar != 0:
+        x, y = _ec_mul(o.scalar, (_GX, _GY))
+        return Ptr(ex.new_obj(OpaqueKey([2 + (y & 1)] + list(x.to_bytes(32, 'big')))), ())
+    return Ptr(ex.new_obj(Opaque('secp256k1.PublicKey')), ())
+
+
+@intrinsic('(*github.com/decred/dcrd/dcrec/secp256k1/v4.ModNScalar).Zero')
+def _modn_zero(ex, args, ins, where):
+    ex.store(args[0], ('u256', 0), where, None)
+    return None
